@@ -43,15 +43,20 @@ type Bounds struct {
 	Parallel     int    `json:"parallel"` // harnesses run concurrently
 	Solver       string `json:"solver"`
 	Solver2      string `json:"solver2"`
+	SolverAlt    string `json:"solver_alt"`
 	Mode         string `json:"mode"` // bv | int
 	LoopBound    int    `json:"loop_bound"`
 	Samples      int    `json:"samples"`
+	OneShot      bool   `json:"oneshot"` // assertion queries in a fresh solver process
+	OneShotAll   bool   `json:"oneshot_all"`
 	Only         string `json:"only"` // regexp restricting harness names for this tier
 	Skip         string `json:"skip"`
 }
 
 type Override struct {
-	Match string `json:"match"`
+	Match     string            `json:"match"`
+	FuncStubs map[string]string `json:"func_stubs"` // additional stubs for the matching harnesses only
+	Summarize []string          `json:"summarize"`
 	Bounds
 }
 
@@ -301,6 +306,15 @@ func pick(tier string, c *Check) Bounds {
 		if b.Mode == "" {
 			b.Mode = q.Mode
 		}
+		if b.SolverAlt == "" {
+			b.SolverAlt = q.SolverAlt
+		}
+		if q.OneShot {
+			b.OneShot = true
+		}
+		if q.OneShotAll {
+			b.OneShotAll = true
+		}
 		if b.LoopBound == 0 {
 			b.LoopBound = q.LoopBound
 		}
@@ -340,6 +354,15 @@ func merge(b Bounds, o Bounds) Bounds {
 	if o.Mode != "" {
 		b.Mode = o.Mode
 	}
+	if o.SolverAlt != "" {
+		b.SolverAlt = o.SolverAlt
+	}
+	if o.OneShot {
+		b.OneShot = true
+	}
+	if o.OneShotAll {
+		b.OneShotAll = true
+	}
 	if o.LoopBound != 0 {
 		b.LoopBound = o.LoopBound
 	}
@@ -358,6 +381,9 @@ func toConfig(b Bounds, c *Check, tier string) *sx.Config {
 	if b.Mode == "int" {
 		cfg.Mode = term.ModeInt
 	}
+	cfg.OneShot = b.OneShot || b.OneShotAll
+	cfg.SolverAlt = b.SolverAlt
+	cfg.OneShotAll = b.OneShotAll
 	return cfg
 }
 
@@ -507,12 +533,23 @@ func run(checkPath, tier, only string, verbose, novalidate bool) int {
 			defer wg.Done()
 			defer func() { <-sem }()
 			hb := b
+			stubs := map[string]string{}
+			for k, v := range c.FuncStubs {
+				stubs[k] = v
+			}
+			summ := append([]string(nil), c.Summarize...)
 			for _, o := range c.Overrides {
 				if ok, _ := regexp.MatchString(o.Match, h.Name()); ok {
 					hb = merge(hb, o.Bounds)
+					for k, v := range o.FuncStubs {
+						stubs[k] = v
+					}
+					summ = append(summ, o.Summarize...)
 				}
 			}
 			cfg := toConfig(hb, c, tier)
+			cfg.FuncStubs = stubs
+			cfg.Summarize = summ
 			cfg.Verbose = verbose
 			eng := &sx.Engine{Prog: l.prog, Cfg: cfg}
 			results[k] = eng.RunHarness(h)
